@@ -3,7 +3,7 @@ From Coq Require Import List Permutation String.
 From TS Require Import Model.Str Model.Outcome Model.Unicode Model.Syntax Model.Rename Model.Types Model.Parse Model.Reconcile Model.Collect Model.Lang.Common Model.MultiFile.
 From TS Require Model.Writer.
 From TS Require Import Spec.C14Spec.
-From TS Require Proofs.C14 Proofs.C14Front Proofs.C14Main Proofs.C14Imports Proofs.C14Witness.
+From TS Require Proofs.C14 Proofs.C14Front Proofs.C14Main Proofs.C14Imports Proofs.C14Order Proofs.C14Witness.
 Import ListNotations.
 Local Open Scope string_scope.
 From TS Require Props.C14.
@@ -136,6 +136,13 @@ Goal forall (ct : crate_types) (own : str) (l1 l2 : list imported),
     forall k n, In (k, n) (scoped_pairs (used_imports ct own l1)) <-> In (k, n) (scoped_pairs (used_imports ct own l2)).
 Proof. exact Props.C14.C14_imports_iteration_order_irrelevant. Qed.
 Print Assumptions Props.C14.C14_imports_iteration_order_irrelevant.
+Goal (forall (ct : crate_types) (own : str) (l1 l2 : list imported),
+     (forall x, In x l1 <-> In x l2) -> used_imports ct own l1 = used_imports ct own l2) /\
+  (forall (hc : crate_types -> crate_types) (cs : crates) (cn : str) (pd : parsed) (ho : list imported -> list imported),
+     Proofs.C14Front.oracle_ok ho ->
+     crate_imports hc cs cn (with_imports pd (ho (p_imports pd))) = crate_imports hc cs cn pd).
+Proof. exact Props.C14.C14_import_list_order_irrelevant. Qed.
+Print Assumptions Props.C14.C14_import_list_order_irrelevant.
 Goal exists arrivals pd v,
     parse_workspace uc_exec [] [] (fun l => l) Proofs.C14Witness.ws_renamed = Ok arrivals /\
     In (lit "my_crate", pd) (multi_crates (fun l => l) arrivals) /\
